@@ -384,12 +384,13 @@ func (db *DB) insertOrUpdate(s *Schema, o Object, commit bool) (err error) {
 		return
 	}
 
-	if s.mustCache() {
-		db.cache.put(o)
-	}
-
 	if err = s.index(o); err != nil {
 		return
+	}
+
+	// we cache the object only once it has been accepted by the index
+	if s.mustCache() {
+		db.cache.put(o)
 	}
 
 	if s.asyncWritesEnabled() {
